@@ -994,12 +994,16 @@ func (ex *Exec) iteChain(idx *sym.Term, n int, at func(int) *sym.Term) *sym.Term
 		}
 	}
 	w := int(idx.S.W)
-	if allConst && n > 0 {
+	if allConst && n > 0 && at(0).S.K != sym.KBool {
 		vals := make([]uint64, n)
 		for i := range vals {
 			vals[i] = at(i).Val
 		}
-		return ex.c.Select(ex.c.NewTable(vals, int(at(0).S.W)), idx)
+		sel := ex.c.Select(ex.c.NewTable(vals, int(at(0).S.W)), idx)
+		if at(0).S.K == sym.KFP {
+			return ex.c.BitsToFP(sel)
+		}
+		return sel
 	}
 	res := at(n - 1)
 	for i := n - 2; i >= 0; i-- {
